@@ -1,5 +1,5 @@
 From Coq Require Import Extraction ExtrOcamlBasic.
-From PV Require Import Base.Bytes Base.Outcome Base.DrvBase Gen.GenCodecsC11 Model.Base58 Model.Bech32.
+From PV Require Import Base.Bytes Base.Outcome Base.DrvBase Gen.GenCodecsC11 Model.Base58 Model.Bech32 Model.ParseableStrC11.
 (* uniquely named wrappers for the driver *)
 Definition c11_to_long (base : Z) (s : bytes) := to_long base byte_id s.
 Definition c11_from_long (v prefix base : Z) := from_long v prefix base z_to_byte.
@@ -7,4 +7,4 @@ Extraction "../ml/c11.ml" drv_base c11_to_long c11_from_long
   btc_b2a_base58 btc_a2b_base58 btc_b2a_hashed_base58 btc_a2b_hashed_base58 btc_is_hashed_base58_valid
   btc_parse_b58 btc_parse_b58_double_sha256
   bech32_polymod bech32_hrp_expand bech32_verify_checksum bech32_create_checksum bech32_encode
-  bech32_decode_max convertbits_o decode encode parse_bech32_or_32m parse_bech32.
+  bech32_decode_max convertbits_o decode encode parse_bech32_or_32m parse_bech32 c11_history.
